@@ -87,8 +87,21 @@ Prog3 == Number(
       SEmit(Call0("k", <<AInt(0)>>)),                                 \* 7
       SEmit(AInt(9))>>)                                               \* 8
 
-Progs == <<Prog1, Prog2, Prog3>>
-Markers == <<{2, 4, 9, 12, 14}, {3, 6, 8, 11, 13}, {2, 4, 6, 8}>>
+(* variables as the program has them: a local captured by a nested def, and a comprehension variable
+   with the name of a local *)
+Prog4 == Number(
+    <<SDef("outer", <<P("a")>>,
+           <<SAssign(TVar("k"), ABin("+", AVar("a"), AInt(1))),                       \* 2
+             SDef("inner", <<>>, <<SReturn(AVar("k"))>>),                             \* 3, 4
+             SEmit(AVar("k")),                                                        \* 5
+             SAssign(TVar("n"), AInt(5)),                                             \* 6
+             SAssign(TVar("q"), ACompr(AVar("n"), <<AFor(TVar("n"), AList(<<AInt(7), AInt(8)>>))>>)),   \* 7
+             SEmit(AVar("n")),                                                        \* 8
+             SReturn(Call0("inner", <<>>))>>),                                        \* 9
+      SEmit(Call0("outer", <<AInt(1)>>))>>)                                           \* 10
+
+Progs == <<Prog1, Prog2, Prog3, Prog4>>
+Markers == <<{2, 4, 9, 12, 14}, {3, 6, 8, 11, 13}, {2, 4, 6, 8}, {5, 8, 10}>>
 
 (* the statement stream: Sem's stmt events; module-level ones doubled under the deviation *)
 RunTr(prog) == RunModule(prog, 50, TRUE)
